@@ -337,7 +337,11 @@ def decode_provenance(analysis: Analysis, enc_default):
     rows.append(("decode: malformed lines raise ValueError only", not bad, w_dec, "all failing paths raise ValueError" if not bad else f"{bad[0][2].cls.__name__}: {bad[0][2].what}"))
     # ... and a line is rejected only by the field count or by int() itself: a test of the decoder's own
     # (isdigit, range, length) rejects frames the encoder produces (negative or large header values)
-    own = sorted({f"{o[2].site}: {o[2].what}" for o in outs if o[0] == "raise" and "explicit raise" in (o[2].what or "") and o[2].site.startswith(info.qual.split(".")[0])})
+    def count_test(state) -> bool:
+        # the path was taken under a comparison of the number of fields (len of the split line)
+        return any(f[0] == "atom" and "len((" in repr(f[1]) and "split:" in repr(f[1]) for f in state.facts)
+
+    own = sorted({f"{o[2].site}: {o[2].what}" for o in outs if o[0] == "raise" and "explicit raise" in (o[2].what or "") and o[2].site.startswith(info.qual.split(".")[0]) and not count_test(o[1])})
     rows.append(("decode: a line is rejected only by its field count or by int()", not own, w_dec, "no rejection test of the decoder's own" if not own else f"the decoder raises on a condition of its own ({own[0][:90]}): lines that int() accepts - e.g. a negative header field, which encode() produces - no longer decode"))
     return rows
 
